@@ -3,7 +3,7 @@
 cd "$(dirname "$0")/.." || exit 2
 rc=0
 for c in C02 C05 C06 C08 C09 C10 C12 C15 C16 C17 C19 C20; do
-  ./check $c --tier quick > /tmp/.allchecks.$$ 2>&1; e=$?
+  A5_EVIDENCE_OUT=/dev/null ./check $c --tier quick > /tmp/.allchecks.$$ 2>&1; e=$?   # (does not touch the committed evidence files)
   tail -1 /tmp/.allchecks.$$ | cut -c1-120
   [ $e -ne 0 ] && { echo "  ^^^ exit $e"; rc=1; }
 done
